@@ -545,8 +545,19 @@ pub fn gen_fci(r: &mut Rng, cfg: &GenCfg) -> Fci {
             };
             let mut seqs = Vec::new();
             let mut cur = base;
+            // one NACK in four is spread over the whole 16-bit space (order relations that are
+            // only unambiguous inside half the space break down there)
+            let wide = r.chance(1, 4);
             for _ in 0..n {
                 seqs.push(cur);
+                if wide {
+                    cur = match r.below(3) {
+                        0 => r.u16(),
+                        1 => cur.wrapping_add(*r.pick(&[0x1000u16, 0x4000, 0x6000, 0x7fff, 0x8000, 0x8001, 0xc000])),
+                        _ => cur.wrapping_add(r.range(1, 40) as u16),
+                    };
+                    continue;
+                }
                 cur = cur.wrapping_add(match r.below(6) {
                     0 | 1 => 1,
                     2 => 16,
